@@ -6,6 +6,14 @@ from . import interp as _interp
 from .interp import Unsupported, PanicExc, Outcomes
 
 
+class CharV:
+    """a value known (from the declaration) to be a char, for Debug rendering"""
+    __slots__ = ("c",)
+
+    def __init__(self, c):
+        self.c = c
+
+
 class FmtArg:
     __slots__ = ("kind", "v")
 
@@ -174,6 +182,11 @@ def register(I, R, hooks):
             raise Unsupported("Debug of a union value")
         if isinstance(v, _interp.VariantOrCtor):
             v = Adt(v.enum, v.variant)
+        if isinstance(v, CharV):
+            c = v.c
+            if isinstance(c, int):
+                return tuple([39] + escape_debug_char(c, 39) + [39])
+            return (39, Seg("dbgchar", c), 39)
         if isinstance(v, (StrSlice, StringV)):
             items = as_str_items(I, v, st)
             out = [34]
@@ -244,7 +257,9 @@ def register(I, R, hooks):
             name = [ord(c) for c in (v.variant or v.ty)]
             if not v.fields:
                 return tuple(name)
-            return seq(name + [40], [41], v.fields)
+            fts = I.P.variant_field_types.get((v.ty, v.variant), [])
+            fields = [CharV(f) if i < len(fts) and fts[i] == "char" else f for i, f in enumerate(v.fields)]
+            return seq(name + [40], [41], fields)
         if isinstance(v, Struct):
             name = [ord(c) for c in v.ty]
             if alt:
